@@ -360,6 +360,12 @@ func faultClass(backend string, lines []string, faultAt int, kind string, base p
 	return "unknown"
 }
 
+// nsxBodyKind: status 200 and a body that is not what the request asks for (NSX defines the
+// success of log-in and change requests by the status code; the body is not read there)
+func nsxBodyKind(k string) bool {
+	return k == "malformed" || k == "json_error_200" || k == "no_results" || k == "wrong_type" || k == "results_wrong_type"
+}
+
 // scpOK: the stand-in for scp (not the program's log) recorded a successful copy of that file
 func scpOK(o CaseOut, what string) bool {
 	for _, e := range o.ScpLog {
@@ -516,6 +522,9 @@ func oracle(c CaseIn, o CaseOut, base, baseE plan) verdict {
 				pred = "output_of_save_command_not_inspected_beyond_confirmation"
 			}
 		}
+		if c.FaultKind == "no_results" && cls == "retrieval" {
+			pred = "rejected_config_retrieval_parsed_as_configuration"
+		}
 		v := verdict{class: cls, cmd: cmd, kind: c.FaultKind}
 		if isHTTP(c.Scen.Backend) && c.FaultKind == "close" && o.FaultAt >= 1 && o.FaultAt <= len(o.Lines) {
 			// net/http replays a replayable request on a closed reused connection: observed iff
@@ -532,7 +541,7 @@ func oracle(c CaseIn, o CaseOut, base, baseE plan) verdict {
 			v.ok, v.symptom, v.what = false, symptom, what
 			return v
 		}
-		if c.Scen.Backend == "NSX" && (c.FaultKind == "malformed" || c.FaultKind == "json_error_200") && (cls == "change" || o.FaultAt == 1) {
+		if c.Scen.Backend == "NSX" && nsxBodyKind(c.FaultKind) && (cls == "change" || o.FaultAt == 1) {
 			// NSX defines success of these requests by the status code: not a failure
 			return verdict{ok: true}
 		}
@@ -693,6 +702,7 @@ func quickParams() []ScenParams {
 		{Backend: "PAN-OS", Cmds: 2, NoCh: true},
 		{Backend: "PAN-OS", Cmds: 2, Vsys: 2, Pend: 1}, // two vsys with changes: two entries in s.changes
 		{Backend: "NSX", Cmds: 3},
+		{Backend: "NSX", Cmds: 3, OnDev: 1}, // the device holds Netspoc services: one stays, one is obsolete
 	}
 }
 
@@ -727,6 +737,7 @@ func randomParams(r *RNG, backend string) ScenParams {
 		}
 	case "NSX":
 		p.Cmds = 1 + r.Intn(6)
+		p.OnDev = r.Intn(3)
 	}
 	return p
 }
@@ -740,7 +751,10 @@ func kindsFor(backend string) []string {
 			"rej_unauth", "rej_failure", "rej_nostatus", "rej_word", "rej_case", "rej_error_nomsg"}
 	}
 	if backend == "NSX" {
-		return []string{"httpstatus", "status_nobody", "rej_4xx", "malformed", "json_error_200", "errtext", "close", "silence", "stall_body"}
+		// 200 with a body that is not the expected document: not JSON, an error document, a
+		// document without `results`, another top-level type, `results` of another type
+		return []string{"httpstatus", "status_nobody", "rej_4xx", "malformed", "json_error_200", "no_results", "wrong_type", "results_wrong_type",
+			"errtext", "close", "silence", "stall_body"}
 	}
 	return []string{"errtext", "unexpected", "garbled", "silence", "truncated", "stall_partial", "close", "warntext"}
 }
@@ -820,11 +834,6 @@ func run(ctx *Ctx) *Result {
 		}
 		applicable := func(pos int, k string) bool {
 			if pos == 0 && (k == "errtext" || k == "garbled" || k == "warntext") {
-				return false
-			}
-			if k == "json_error_200" && (pos < 1 || pos > len(blOut[i].Lines) || strings.HasPrefix(blOut[i].Lines[pos-1], "GET ")) {
-				// in place of a GET result the document would be read as an empty result list
-				// (docs/C09.md, not covered); on the other requests NSX defines success by the status
 				return false
 			}
 			return true
@@ -1087,6 +1096,15 @@ func judge(c CaseIn, o CaseOut, p *plans, ans string, untok map[string]string) j
 	return j
 }
 
+// planKey: the plans of a case.  NSX, a list answered by a document without `results`: the real
+// planner works with what it then believes the device holds -- its script under that very reply.
+func planKey(c CaseIn) string {
+	if c.Scen.Backend == "NSX" && c.FaultKind == "no_results" && c.FaultPos >= 1 {
+		return fmt.Sprintf("%s#%d", c.Scen.ID, c.FaultPos)
+	}
+	return c.Scen.ID
+}
+
 // evalCases: plans via real compare runs, then real runs, model runs, comparison, oracle.
 func evalCases(ctx *Ctx, res *Result, drv *Nadrv, cases []CaseIn, nw int, verbose bool) {
 	// plans per scenario: the real planner's script against the genuine device configuration
@@ -1131,6 +1149,13 @@ func evalCases(ctx *Ctx, res *Result, drv *Nadrv, cases []CaseIn, nw int, verbos
 			pk2 = append(pk2, id)
 		}
 	}
+	for _, c := range cases {
+		if k := planKey(c); k != c.Scen.ID && pl[k] == nil {
+			pl[k] = &plans{g: pl[c.Scen.ID].g}
+			pc2 = append(pc2, CaseIn{Scen: c.Scen, Tool: "doapprove", Mode: "compare", FaultPos: c.FaultPos, FaultKind: c.FaultKind, TimeoutS: c.TimeoutS})
+			pk2 = append(pk2, k)
+		}
+	}
 	po2 := runChecked(res, pc2, nw, prepGood)
 	for i, id := range pk2 {
 		pl[id].e = planFromCmp(pc2[i].Scen.Backend, po2[i].CmpLog)
@@ -1142,9 +1167,9 @@ func evalCases(ctx *Ctx, res *Result, drv *Nadrv, cases []CaseIn, nw int, verbos
 	untoks := make([]map[string]string, len(cases))
 	var suspects []int
 	for i, c := range cases {
-		line, untok := modelLine(c, pl[c.Scen.ID])
+		line, untok := modelLine(c, pl[planKey(c)])
 		untoks[i] = untok
-		js[i] = judge(c, outs[i], pl[c.Scen.ID], drv.Ask(line), untok)
+		js[i] = judge(c, outs[i], pl[planKey(c)], drv.Ask(line), untok)
 		// A first verdict is never replaced by a second run; a second run may only CONFIRM a
 		// disagreement whose first run carries the marks of trouble of the test machine (a
 		// time-out the injected fault cannot have caused, pty / process shortage, a dead or hung
@@ -1168,7 +1193,7 @@ func evalCases(ctx *Ctx, res *Result, drv *Nadrv, cases []CaseIn, nw int, verbos
 				continue
 			}
 			res.Count("suspect_repeated_serially")
-			j2 := judge(cases[i], o2[k], pl[cases[i].Scen.ID], js[i].ans, untoks[i])
+			j2 := judge(cases[i], o2[k], pl[planKey(cases[i])], js[i].ans, untoks[i])
 			if v1 := js[i].v; !v1.ok && v1.pred != "go_panic" && v1.pred != "run_never_ends" {
 				// trouble of the test machine only ever makes a run stop early: what the oracle
 				// saw in the first run (a change after the failure, exit 0, ...) stands
@@ -1192,7 +1217,7 @@ func evalCases(ctx *Ctx, res *Result, drv *Nadrv, cases []CaseIn, nw int, verbos
 	}
 
 	for i, c := range cases {
-		o, j, p := outs[i], js[i], pl[c.Scen.ID]
+		o, j, p := outs[i], js[i], pl[planKey(c)]
 		m, v, ans := j.m, j.v, j.ans
 		kind := c.FaultKind
 		if kind == "" {
